@@ -253,6 +253,22 @@ Theorem C18_attach_registers :
 Proof. exact attach_registers. Qed.
 Print Assumptions C18_attach_registers.
 
+(* ------------------------------------------------------------------ clauses 5 + 7: adding touches nothing else
+   an accepted add / attach of p under the path segs changes the map it is
+   added to and nothing else: every path that does not lead through the new
+   child resolves to the same node as before (up to the child lists of the
+   maps on the way) - no parameter of another map, and no other child of the
+   same map, disappears or is replaced.  (remove() hands the removed object
+   back; in the model it is a retired object of [st_free], which can be added
+   again like a parent-less one, also when its old key has a successor.) *)
+Theorem C18_add_frame :
+  forall n segs p T T',
+    wf n T -> modify segs (map_add p) T = Val T' ->
+    forall l', is_prefix (segs ++ [pkey p]) l' = false ->
+               option_map shallow (node_at T' l') = option_map shallow (node_at T l').
+Proof. exact add_frame. Qed.
+Print Assumptions C18_add_frame.
+
 (* ------------------------------------------------------------------ the snapshot 13808df
    On the pinned snapshot three clauses were false ([step pinned] transcribes
    that code; each witness was replayed on it).  /repo has been repaired since
@@ -377,6 +393,32 @@ Proof.
   split; [repeat (constructor; try (vm_compute; discriminate))|].
   split; vm_compute; reflexivity.
 Qed.
+
+(* a removed parameter is retired, its key gets a successor, the retired object
+   is added to another map: both are listed, each under its own key path *)
+Definition ex_retire : list op :=
+  [ OAddCtor None (mkSpec "m" 1 true SMap VNone no_flaws);                   (* 1 *)
+    OAddCtor None (mkSpec "m2" 2 true SMap VNone no_flaws);                  (* 2 *)
+    OAddCtor (Some "m") (mkSpec "n" 1 false SBool (VBool true) no_flaws);    (* 3: A *)
+    ORemove "m.n";                                                           (* A is handed back: retired *)
+    OAddCtor (Some "m") (mkSpec "n" 1 false SBool (VBool false) no_flaws);   (* 5: B takes the key *)
+    OAttach 3 (Some "m2");                                                   (* A is added to another map *)
+    OGet "m.n"; OGet "m2.n";
+    OAttach 3 None ].                                                        (* A is not free any more *)
+
+Example ex_retire_outcomes :
+  outs init ex_retire = [ONone; ONone; ONone; OParam 3; ONone; ONone; OParam 5; OParam 3; OOutside].
+Proof. vm_compute. reflexivity. Qed.
+
+Example ex_retire_mid :
+  map (fun e => (fst (fst (fst e)), snd (fst (fst e)))) (dump_state (run repaired init (firstn 5 ex_retire))) =
+  [("root", 0%nat); ("root.m", 1%nat); ("root.m.n", 5%nat); ("root.m2", 2%nat); ("n", 3%nat)].
+Proof. vm_compute. reflexivity. Qed.
+
+Example ex_retire_after :
+  map (fun e => (fst (fst (fst e)), snd (fst (fst e)))) (dump_state (run repaired init ex_retire)) =
+  [("root", 0%nat); ("root.m", 1%nat); ("root.m.n", 5%nat); ("root.m2", 2%nat); ("root.m2.n", 3%nat)].
+Proof. vm_compute. reflexivity. Qed.
 
 (* bottom-up construction: parent-less maps are filled first and attached later;
    before the attachment the extended keys start at the parent-less object,
